@@ -33,7 +33,8 @@ def make(t, labels):
     if t == R.T_FORCE3D:
         return gen.force3d(n, [gen.mk_ftrack(n, (True, i % 2 == 0), lab, i) for i, lab in enumerate(labels)])
     if t == R.T_EMG:
-        return gen.emg(n, [(i, gen.mk_emgsig(n, (True, i % 2 == 0), lab, i)) for i, lab in enumerate(labels)])
+        # channels deliberately not ascending: storage order, not channel order, is what the lookups follow
+        return gen.emg(n, [((7 * (i + 1)) % 5 + 10 * (i % 2), gen.mk_emgsig(n, (True, i % 2 == 0), lab, i)) for i, lab in enumerate(labels)])
     # value counts 0, 1, 2 by position: an event without values must be found like any other
     return gen.events([gen.mk_event(lab, 1, i % 3, i) for i, lab in enumerate(labels)])
 
